@@ -74,7 +74,17 @@ func bodyPat(id string, n int) []byte {
 
 func genC03Req(e *Env, id string, streamy bool) c03Req {
 	r := c03Req{ID: id, Method: Pick(e, "GET", "GET", "POST", "HEAD"), Proto: Pick(e, "HTTP/1.1", "HTTP/1.1", "HTTP/1.1", "HTTP/1.0")}
+	if e.Chance(15) {
+		// the handler starts over: whatever it had built is gone (Response.Reset, ctx.Error)
+		r.Ops = append(r.Ops, c03Op{Op: "status", N: 503}, c03Op{Op: "set", A: "X-Junk", B: "junk-" + id}, c03Op{Op: "body", N: 77})
+		if e.Chance(30) {
+			r.Ops = append(r.Ops, c03Op{Op: "stream", N: 300, M: 300, Chunk: 100})
+		}
+		r.Ops = append(r.Ops, c03Op{Op: Pick(e, "reset", "error"), A: "failed " + id, N: Pick(e, 400, 404, 500)})
+	}
+	statusAt := -1
 	if e.Chance(60) {
+		statusAt = len(r.Ops)
 		r.Ops = append(r.Ops, c03Op{Op: "status", N: Pick(e, 200, 201, 204, 304, 299, 404, 500, 600, 999, 206)})
 	}
 	if e.Chance(15) {
@@ -143,6 +153,11 @@ func genC03Req(e *Env, id string, streamy bool) c03Req {
 	if e.Chance(8) && len(r.Ops) > 0 {
 		// replace the stream: a later SetBody* must close the earlier stream
 		r.Ops = append(r.Ops, c03Op{Op: "body", N: 33})
+	}
+	if statusAt >= 0 && e.Chance(35) {
+		// the status is decided last (after the body was attached)
+		st := r.Ops[statusAt]
+		r.Ops = append(append(r.Ops[:statusAt:statusAt], r.Ops[statusAt+1:]...), st)
 	}
 	return r
 }
@@ -331,6 +346,15 @@ func c03Apply(ctx *fasthttp.RequestCtx, r *c03Req) *c03Model {
 				}
 			})
 			m.body, m.chunked, m.declared, m.fault = data, true, -1, ""
+		case "reset", "error":
+			streams := m.streams
+			m = &c03Model{status: 200, set: map[string]string{}, cookies: map[string]string{}, declared: -2, streams: streams}
+			if op.Op == "reset" {
+				ctx.Response.Reset()
+			} else {
+				ctx.Error(op.A, op.N)
+				m.status, m.body, m.ctype = op.N, []byte(op.A), "text/plain; charset=utf-8"
+			}
 		case "skipbody":
 			ctx.Response.SkipBody = true
 			m.noBody = true
@@ -618,6 +642,10 @@ func c03Judge(e *Env, p *c03Plan, ci int, raw, sent []byte, aborted, closed bool
 				e.Violation("header/set", "%s: header %s = %q on the wire, handler set %q", tag, name, got, v)
 				return
 			}
+		}
+		if _, junk := m.set["X-Junk"]; !junk && len(resp.Header.Values("X-Junk")) > 0 {
+			e.Violation("header/after-reset", "%s: header X-Junk: %q on the wire although the handler reset the response after setting it", tag, resp.Header.Values("X-Junk"))
+			return
 		}
 		if got := resp.Header.Values("X-Multi"); strings.Join(got, ",") != strings.Join(m.multi, ",") {
 			e.Violation("header/add", "%s: X-Multi = %q on the wire, handler added %q", tag, got, m.multi)
